@@ -20,6 +20,7 @@ PROP = "C20"
 READY = True
 DRIVER = "dm_slicing"
 LEAN_MODULES = ["DaskModel.Props.C20"]
+TABLES = ["ChunkTolerance"]   # array.chunk-size-tolerance (dask.yaml), used by the take/_shuffle regrouping model
 CASE_TIMEOUT_S = 20
 LEVEL_TEXT = (
     "Lean 4 theorems over a transliteration of normalize_slice, _slice_1d (integer, positive-step and "
